@@ -33,10 +33,10 @@ func observe(nw *netrun.Network, p int) map[string]string {
 		var xi *big.Int
 		if n.EcKey != nil {
 			xi = n.EcKey.Xi
-			m["key"] = statehash.Hash(n.EcKey)
+			m["key"] = statehash.ValueHash(n.EcKey)
 		} else if n.EdKey != nil {
 			xi = n.EdKey.Xi
-			m["key"] = statehash.Hash(n.EdKey)
+			m["key"] = statehash.ValueHash(n.EdKey)
 		}
 		if xi == nil || xi.Sign() == 0 {
 			m["erased"] = "1"
@@ -84,12 +84,14 @@ func invariant(nOld int, initial []string) func(s *explore.Sys, locals []*explor
 	}
 }
 
+// initialKeyHashes: the old members' key data as it was BEFORE any party was constructed from it
+// (constructing a party must not modify the caller's key data either).
 func initialKeyHashes(sc protomc.Scenario) []string {
 	nw := sc.Mk()
 	var out []string
-	for p, n := range nw.Nodes {
+	for _, n := range nw.Nodes {
 		if n.Role == "old" {
-			out = append(out, observe(nw, p)["key"])
+			out = append(out, n.KeyHash0)
 		}
 	}
 	return out
